@@ -5,6 +5,8 @@ import MM.Model.C33
 /-
   Engine c33.  One op per line, every line its own case:
 
+    reset <cycle ns> <window ns> <tolerance ns> <epoch ns>       -> ok   (one calculator for the case)
+    q <agentID:32 hex> <t ns>                                     -> as `w`, on the case's calculator
     w <agentID:32 hex> <cycle ns> <window ns> <tolerance ns> <epoch ns> <t ns>
       -> ok <nextS> <nextE> <infoS> <infoE> <safeS> <safeE> <mid> <timeUntil> <active> <isIn> <tuw> <prevS> <prevE>
 
@@ -23,7 +25,19 @@ structure Op where
   seed : Nat
   t : Int
 
-def parseOp (line : String) : Option Op :=
+/-- `reset <cycle> <window> <tolerance> <epoch>`: ONE calculator for the following `q` ops. -/
+def parseReset (line : String) : Option Cfg :=
+  match tokens line with
+  | ["reset", c, w, tol, ep] =>
+    match c.toInt?, w.toInt?, tol.toInt?, ep.toInt? with
+    | some c, some w, some tol, some ep => some { C := c, W := w, tol := tol, epoch := ep }
+    | _, _, _, _ => none
+  | _ => none
+
+/-- `w …` carries its own configuration (fresh calculator); `q <id> <t>` asks the calculator of
+    the current case.  The calculator is a pure function of its configuration, so the model is
+    stateless: whatever was asked before must not matter. -/
+def parseOp (cur : Option Cfg) (line : String) : Option Op :=
   match tokens line with
   | ["w", id, c, w, tol, ep, t] =>
     match bytesOfHex id, c.toInt?, w.toInt?, tol.toInt?, ep.toInt?, t.toInt? with
@@ -31,10 +45,14 @@ def parseOp (line : String) : Option Op :=
       if idb.length = 16 then some { c := { C := c, W := w, tol := tol, epoch := ep }, seed := seedOf idb, t := t }
       else none
     | _, _, _, _, _, _ => none
+  | ["q", id, t] =>
+    match cur, bytesOfHex id, t.toInt? with
+    | some c, some idb, some t => if idb.length = 16 then some { c := c, seed := seedOf idb, t := t } else none
+    | _, _, _ => none
   | _ => none
 
-def step (line : String) : String :=
-  match parseOp line with
+def step (cur : Option Cfg) (line : String) : String :=
+  match parseOp cur line with
   | none => "bad-op"
   | some op =>
     if op.c.C = 0 then "panic" else
@@ -50,8 +68,8 @@ def existsMultiple (C lo hi : Int) (loIncl hiIncl : Bool) : Bool :=
   if hiIncl then decide (k * C ≤ hi) else decide (k * C < hi)
 
 /-- Executable statement of C33 on the implementation's own answer. -/
-def spec (line : String) (implOut : String) : String :=
-  match parseOp line with
+def spec (cur : Option Cfg) (line : String) (implOut : String) : String :=
+  match parseOp cur line with
   | none => "ok"
   | some op =>
     let c := op.c
@@ -88,9 +106,13 @@ def spec (line : String) (implOut : String) : String :=
 
 def main (args : List String) : IO Unit :=
   match args with
-  | ["spec"] => runPure (fun l => match l.splitOn "\t" with
-      | [op, out] => spec op out
-      | _ => "bad-op")
-  | _ => runPure step
+  | ["spec"] => runLines (none : Option Cfg) (fun cur l => match l.splitOn "\t" with
+      | [op, out] => match parseReset op with
+        | some c => (some c, "ok")
+        | none => (cur, spec cur op out)
+      | _ => (cur, "bad-op"))
+  | _ => runLines (none : Option Cfg) (fun cur l => match parseReset l with
+      | some c => (some c, "ok")
+      | none => (cur, step cur l))
 
 end MM.Engine.C33
